@@ -1,7 +1,7 @@
 (* EvalProofs.v — the path evaluator never panics on paths in the image of the parser (C08). *)
 From Coq Require Import List NArith ZArith Bool Lia.
 Import ListNotations.
-From JB Require Import Constants Bytes Utf8 Num NumProofs Value Codec Order TreeOps Path PathSem.
+From JB Require Import Constants Bytes Utf8 Num NumProofs Value Codec Order TreeOps Path PathInd PathSem.
 Open Scope N_scope.
 Set Default Timeout 120.
 
@@ -15,23 +15,30 @@ Definition operand_ok (e : expr) : bool :=
   | _ => false
   end.
 (* expressions the parser produces: comparisons of operands, && / ||, exists(paths); arithmetic is parsed but is
-   answered with an error by the evaluator *)
-Fixpoint expr_ok (fuel : nat) (e : expr) : bool :=
-  match fuel with O => false | S f =>
-  match e with
-  | EBin OAnd l r | EBin OOr l r => expr_ok f l && expr_ok f r
-  | EBin _ l r => operand_ok l && operand_ok r
-  | EExists ps => match ps with (PRoot :: r) | (PCurrent :: r) => forallb (step_ok f) r | _ => false end
-  | EArithU _ _ | EArithB _ _ _ => true
-  | _ => false
-  end end
-with step_ok (fuel : nat) (p : path) : bool :=
-  match fuel with O => false | S f =>
+   answered with an error by the evaluator.  Structural (no depth bound). *)
+Definition step_ok_with (eo : expr -> bool) (p : path) : bool :=
   match p with
   | PRoot | PCurrent | PPredicate _ => false
-  | PFilter e => expr_ok f e
+  | PFilter e => eo e
   | _ => true
-  end end.
+  end.
+Fixpoint expr_ok (e : expr) : bool :=
+  match e with
+  | EBin OAnd l r | EBin OOr l r => expr_ok l && expr_ok r
+  | EBin _ l r => operand_ok l && operand_ok r
+  | EExists ps => match ps with (PRoot :: r) | (PCurrent :: r) => forallb (step_ok_with expr_ok) r | _ => false end
+  | EArithU _ _ | EArithB _ _ _ => true
+  | _ => false
+  end.
+Definition step_ok (p : path) : bool := step_ok_with expr_ok p.
+(* the paths find_positions is called on: the whole path, or the argument of exists() *)
+Definition path_ok (cur : bool) (ps : list path) : Prop :=
+  match ps with
+  | PCurrent :: r => cur = true /\ forallb step_ok r = true
+  | PRoot :: r => forallb step_ok r = true
+  | [PPredicate e] => expr_ok e = true
+  | r => forallb step_ok r = true
+  end.
 
 Lemma select_step_np p v : inner_step p = true -> select_step p v <> Panic.
 Proof. unfold select_step. destruct (is_container v); destruct p; cbn; intros H; try discriminate. Qed.
@@ -71,80 +78,69 @@ Proof.
   - pose proof (walk_operand_np r [pos] H) as F. destruct (walk_operand r [pos]); cbn [bind]; try discriminate. contradiction.
 Qed.
 
-(* the walk never panics when the filter function does not, on steps of the parser's image *)
-Lemma walk_np fe k : (forall pos e k', (k' < k)%nat -> expr_ok k' e = true -> fe pos e <> Panic) ->
-  forall r fr, forallb (step_ok k) r = true -> walk fe r fr <> Panic.
+(* the walk never panics when the filter function does not on the filters of the path *)
+Lemma walk_np fe : forall r fr, forallb step_ok r = true ->
+  steps_all (fun e => expr_ok e = true -> forall pos, fe pos e <> Panic) r -> walk fe r fr <> Panic.
 Proof.
-  intros Hfe. induction r as [|p r IH]; intros fr Hr; [discriminate|].
+  induction r as [|p r IH]; intros fr Hr Hfe; [discriminate|].
   cbn [forallb] in Hr. apply andb_true_iff in Hr. destruct Hr as [H1 H2].
-  destruct k as [|k']; [discriminate H1|]. cbn [step_ok] in H1.
+  apply steps_all_cons in Hfe. destruct Hfe as [Hp Hfe].
   destruct p as [| | | |s|s|s|l|e|e]; try discriminate H1; cbn [walk].
   1-6: match goal with |- context [flat_map_res (select_step ?q) ?f0] =>
          pose proof (flat_map_res_np (select_step q) f0 (fun x => select_step_np q x eq_refl)) as F end;
        match goal with |- bind ?g _ <> _ => destruct g end;
-       [cbn [bind]; apply IH; exact H2|cbn [bind]; discriminate|exfalso; apply F; reflexivity].
-  pose proof (filter_res_np (fun pos => fe pos e) fr (fun x => Hfe x e k' (Nat.lt_succ_diag_r k') H1)) as F.
-  destruct (filter_res _ fr); [cbn [bind]; apply IH; exact H2|cbn [bind]; discriminate|exfalso; apply F; reflexivity].
+       [cbn [bind]; apply IH; assumption|cbn [bind]; discriminate|exfalso; apply F; reflexivity].
+  pose proof (filter_res_np (fun pos => fe pos e) fr (fun x => Hp e (or_introl eq_refl) H1 x)) as F.
+  destruct (filter_res _ fr); [cbn [bind]; apply IH; assumption|cbn [bind]; discriminate|exfalso; apply F; reflexivity].
 Qed.
 
-Lemma expr_ok_mono k : forall e k2, (k <= k2)%nat -> expr_ok k e = true -> expr_ok k2 e = true
-with step_ok_mono k : forall p k2, (k <= k2)%nat -> step_ok k p = true -> step_ok k2 p = true.
+Lemma find_positions_with_np fe root cur ps : path_ok (match cur with Some _ => true | None => false end) ps ->
+  steps_all (fun e => expr_ok e = true -> forall pos, fe pos e <> Panic) ps ->
+  find_positions_with fe root cur ps <> Panic.
 Proof.
-  - destruct k as [|k]; intros e k2 L H; [discriminate H|]. destruct k2 as [|k2]; [lia|]. cbn [expr_ok] in *.
-    destruct e as [ps|v|op l r|op x|op l r|ps]; try discriminate H; try reflexivity.
-    + destruct op; try exact H; apply andb_true_iff in H; destruct H as [H1 H2];
-        rewrite (expr_ok_mono k l k2), (expr_ok_mono k r k2) by (assumption || lia); reflexivity.
-    + destruct ps as [|p r]; [discriminate H|].
-      assert (G : forall r, forallb (step_ok k) r = true -> forallb (step_ok k2) r = true).
-      { induction r0 as [|q r0 IHr]; intros Hr; [reflexivity|]. cbn [forallb] in *. apply andb_true_iff in Hr. destruct Hr as [A B].
-        rewrite (step_ok_mono k q k2), IHr by (assumption || lia). reflexivity. }
-      destruct p; try discriminate H; apply G; exact H.
-  - destruct k as [|k]; intros p k2 L H; [discriminate H|]. destruct k2 as [|k2]; [lia|]. cbn [step_ok] in *.
-    destruct p; try discriminate H; try reflexivity. apply (expr_ok_mono k e k2); [lia|exact H].
+  intros H Hfe. unfold find_positions_with.
+  assert (W : forall r fr, forallb step_ok r = true -> steps_all (fun e => expr_ok e = true -> forall pos, fe pos e <> Panic) r ->
+                           walk fe r fr <> Panic) by (intros; apply walk_np; assumption).
+  destruct ps as [|p r]; [cbn [bind walk]; discriminate|].
+  pose proof (proj2 (proj1 (steps_all_cons _ _ _) Hfe)) as Hr.
+  destruct p as [| | | |s|s|s|l|e|e]; cbn [path_ok] in H.
+  - cbn [bind walk]. apply W; assumption.
+  - destruct H as [Hc H]. destruct cur as [c|]; [|discriminate Hc]. cbn [bind walk]. apply W; assumption.
+  - cbn [bind]. apply W; assumption.
+  - cbn [bind]. apply W; assumption.
+  - cbn [bind]. apply W; assumption.
+  - cbn [bind]. apply W; assumption.
+  - cbn [bind]. apply W; assumption.
+  - cbn [bind]. apply W; assumption.
+  - cbn [bind]. apply W; assumption.
+  - destruct r as [|p2 r2].
+    + cbn [bind walk filter_res]. apply steps_all_cons in Hfe. destruct Hfe as [He _].
+      pose proof (He e (or_introl eq_refl) H root) as F.
+      destruct (fe root e) as [[]| |]; cbn [bind]; try discriminate; contradiction.
+    + cbn [forallb step_ok step_ok_with] in H. discriminate H.
 Qed.
 
 (* a filter expression in the parser's image is evaluated to a boolean or an error; and so is a whole path *)
-Theorem filter_expr_np fuel : forall root pos e k, expr_ok k e = true -> filter_expr fuel root pos e <> Panic
-with find_positions_np fuel : forall root cur ps k,
-  match ps with
-  | PCurrent :: r => cur <> None /\ forallb (step_ok k) r = true
-  | PRoot :: r => forallb (step_ok k) r = true
-  | [PPredicate e] => expr_ok k e = true
-  | r => forallb (step_ok k) r = true
-  end -> find_positions fuel root cur ps <> Panic.
+Theorem filter_expr_np root : forall e, expr_ok e = true -> forall pos, filter_expr root pos e <> Panic.
 Proof.
-  - destruct fuel as [|fuel]; intros root pos e k H; cbn [filter_expr]; [discriminate|].
-    destruct k as [|k']; [discriminate H|]. cbn [expr_ok] in H.
-    destruct e as [ps|v|op l r|op x|op l r|ps]; try discriminate H; try discriminate.
-    + destruct op; try (apply andb_true_iff in H; destruct H as [H1 H2]).
-      1-2: pose proof (filter_expr_np fuel root pos l k' H1); pose proof (filter_expr_np fuel root pos r k' H2);
-           destruct (filter_expr fuel root pos l); cbn [bind]; try discriminate; [|contradiction];
-           destruct (filter_expr fuel root pos r); cbn [bind]; try discriminate; contradiction.
-      all: pose proof (operand_values_np root pos l H1) as Fl; pose proof (operand_values_np root pos r H2) as Fr;
-        destruct (expr_values root pos l) as [a| |]; cbn [bind]; try discriminate; [|contradiction];
-        destruct (expr_values root pos r) as [b| |]; cbn [bind]; try discriminate; [|contradiction];
-        apply exists_res_np; intros x; apply exists_res_np; intros y; apply compare_value_np; discriminate.
-    + destruct ps as [|p r]; [discriminate H|].
-      assert (F : find_positions fuel root (Some pos) (p :: r) <> Panic).
-      { apply (find_positions_np fuel root (Some pos) (p :: r) k').
-        destruct p; try discriminate H; [exact H|split; [discriminate|exact H]]. }
-      destruct (find_positions fuel root (Some pos) (p :: r)); cbn [bind]; try discriminate. contradiction.
-  - destruct fuel as [|fuel]; intros root cur ps k H; cbn [find_positions]; [discriminate|].
-    assert (W : forall r fr k0, forallb (step_ok k0) r = true -> walk (fun pos e => filter_expr fuel root pos e) r fr <> Panic).
-    { intros r fr k0 Hr. apply (walk_np _ k0); [|exact Hr]. intros pos e k' _ He. apply (filter_expr_np fuel root pos e k' He). }
-    destruct ps as [|p r]; [cbn [bind walk]; discriminate|].
-    destruct p as [| | | |s|s|s|l|e|e].
-    + cbn [bind walk]. apply (W r [root] k H).
-    + destruct H as [Hc Hr]. destruct cur as [c|]; [|contradiction]. cbn [bind walk]. apply (W r [c] k Hr).
-    + cbn [bind]. apply (W _ [root] k H).
-    + cbn [bind]. apply (W _ [root] k H).
-    + cbn [bind]. apply (W _ [root] k H).
-    + cbn [bind]. apply (W _ [root] k H).
-    + cbn [bind]. apply (W _ [root] k H).
-    + cbn [bind]. apply (W _ [root] k H).
-    + cbn [bind]. apply (W _ [root] k H).
-    + destruct r as [|p2 r2].
-      * cbn [bind walk]. pose proof (filter_expr_np fuel root root e k H) as F.
-        cbn [filter_res]. destruct (filter_expr fuel root root e) as [[]| |]; cbn [bind]; try discriminate; contradiction.
-      * destruct k as [|k']; cbn [forallb step_ok] in H; discriminate H.
+  induction e as [ps IH|v|op l r IHl IHr|op x IHx|op l r IHl IHr|ps IH] using expr_ind_steps; intros H pos;
+    cbn [filter_expr]; try discriminate H; try discriminate.
+  - cbn [expr_ok] in H. destruct op; try (apply andb_true_iff in H; destruct H as [H1 H2]).
+    1-2: pose proof (IHl H1 pos); pose proof (IHr H2 pos);
+         destruct (filter_expr root pos l); cbn [bind]; try discriminate; [|contradiction];
+         destruct (filter_expr root pos r); cbn [bind]; try discriminate; contradiction.
+    all: pose proof (operand_values_np root pos l H1) as Fl; pose proof (operand_values_np root pos r H2) as Fr;
+      destruct (expr_values root pos l) as [a| |]; cbn [bind]; try discriminate; [|contradiction];
+      destruct (expr_values root pos r) as [b| |]; cbn [bind]; try discriminate; [|contradiction];
+      apply exists_res_np; intros x; apply exists_res_np; intros y; apply compare_value_np; discriminate.
+  - cbn [expr_ok] in H. destruct ps as [|p r]; [discriminate H|].
+    assert (F : find_positions_with (fun pos' e' => filter_expr root pos' e') root (Some pos) (p :: r) <> Panic).
+    { apply find_positions_with_np; [|exact IH].
+      destruct p; try discriminate H; cbn [path_ok]; [exact H|split; [reflexivity|exact H]]. }
+    destruct (find_positions_with _ root (Some pos) (p :: r)); cbn [bind]; try discriminate. contradiction.
+Qed.
+Theorem find_positions_np root cur ps : path_ok (match cur with Some _ => true | None => false end) ps ->
+  find_positions root cur ps <> Panic.
+Proof.
+  intros H. apply find_positions_with_np; [exact H|]. apply steps_all_intro. intros e He pos. apply filter_expr_np. exact He.
 Qed.
